@@ -50,7 +50,6 @@ func c17Exec(depth int, masks []int) explore.Exec {
 		mask := 0
 		res := harness.RunExec(c, false, 0, func() {
 			mask = masks[harness.Choose(len(masks), harness.ClassOp)]
-			harness.SetMapOrderDesc(harness.Choose(2, harness.ClassOp) == 1)
 			var picks []int
 			w = harness.NewWorld(mon, mask, [][]byte{kA, kB}, false)
 			w.SetCollection("x", "nil")
@@ -58,16 +57,24 @@ func c17Exec(depth int, masks []int) explore.Exec {
 			// second initial state: a durable collection under the reverse
 			// comparator (its order must survive every way of re-loading roots)
 			initial := harness.Choose(2, harness.ClassOp)
+			if initial == 1 {
+				// several collections with different orders exist from the start:
+				// both iteration orders of the library's maps
+				harness.SetMapOrderDesc(harness.Choose(2, harness.ClassOp) == 1)
+			}
 			prepare := func(w *harness.World) {
 				if initial == 1 {
 					w.SetCollection("y", "rev")
 					w.SetItem("y", kA, 1, bs("ya"))
 					w.SetItem("y", kB, 2, bs("yb"))
+					w.SetItem("x", kA, 1, bs("xa"))
+					w.SetItem("x", kB, 3, bs("xb"))
+					w.SetItem("x", bs("c"), 2, bs("xc"))
 					w.Flush()
 				}
 			}
 			if initial == 1 {
-				w.Hist = append(w.Hist, "init:y(rev){a,b}+Flush")
+				w.Hist = append(w.Hist, "init:y(rev){a,b},x{a,b,c}+Flush")
 			}
 			prepare(w)
 			for step := 0; step < depth && len(w.Viols) == 0; step++ {
@@ -148,8 +155,8 @@ func c17Profiles(tier string) []Profile {
 		singles = append(singles, 1<<b)
 	}
 	return []Profile{
-		{Name: "subsets", Exec: c17Exec(dAll, all), ShardLevel: 1, Rule: fmt.Sprintf("all 512 subsets of {BeforeItemWrite, AfterItemRead, ItemAlloc, ItemAddRef, ItemDecRef, ItemValLength, ItemValWrite (two chunks), ItemValRead (two chunks), KeyCompareForCollection} x every history of length <= %d over Set/Delete/GetItem/MinItem/visit/Evict/SetCollection(y, reverse)/Flush/Reopen/FlushRevert/CopyTo; whenever ItemAlloc, ItemAddRef and ItemDecRef are all installed they implement a recycling pool (an item whose count reaches zero is scrubbed); oracles of C01 (model), C02 (copy re-opens to the durable state), C09 (file monitor), C14 (independent decoder) all on, plus: the observation log equals that of the same history run without callbacks", dAll)},
-		{Name: "singles", Exec: c17Exec(dSingle, singles), ShardLevel: 2, Rule: fmt.Sprintf("the empty set, the 9 singletons and the full set x every history of length <= %d, same oracles", dSingle)},
+		{Name: "subsets", Exec: c17Exec(dAll, all), ShardLevel: 1, Budget: map[int]int{explore.ClassRand: 1}, Rule: fmt.Sprintf("all 512 subsets of {BeforeItemWrite, AfterItemRead, ItemAlloc, ItemAddRef, ItemDecRef, ItemValLength, ItemValWrite (two chunks), ItemValRead (two chunks), KeyCompareForCollection} x every history of length <= %d over Set/Delete/GetItem/MinItem/visit/Evict/SetCollection(y, reverse)/Flush/Reopen/FlushRevert/CopyTo; whenever ItemAlloc, ItemAddRef and ItemDecRef are all installed they implement a recycling pool (an item whose count reaches zero is scrubbed); oracles of C01 (model), C02 (copy re-opens to the durable state), C09 (file monitor), C14 (independent decoder) all on, plus: the observation log equals that of the same history run without callbacks", dAll)},
+		{Name: "singles", Exec: c17Exec(dSingle, singles), ShardLevel: 2, Budget: map[int]int{explore.ClassRand: 1}, Rule: fmt.Sprintf("the empty set, the 9 singletons and the full set x every history of length <= %d, same oracles", dSingle)},
 	}
 }
 
